@@ -145,7 +145,7 @@ static thread_local Crumb g_crumb={nullptr,nullptr};
 
 struct Config {
 	std::string out, tier="quick", only, replay_op, replay_hex, sanlog;
-	u64 seed=1; double scale=1.0; int threads=16; bool san_only=false; bool list=false;
+	u64 seed=1; double scale=1.0; int threads=16; bool san_only=false; bool list=false; u64 sweep_div=1;
 	std::map<std::string,std::string> extra;
 };
 static inline Config& cfg(){ static Config c; return c; }
@@ -217,7 +217,10 @@ static inline void parallel(const char* label,const std::function<void(int,int,C
 // dynamic chunked sweep over [0,total) : fn(ctx, lo, hi) ; enum_mode on
 static inline void sweep(const char* label,u64 total,u64 chunk,const std::function<void(Ctx&,u64,u64)>& fn){
 	std::atomic<u64> next(0);
-	parallel(label,[&](int,int,Ctx& c){ c.enum_mode=true; for(;;){ u64 lo=next.fetch_add(chunk); if(lo>=total) break; u64 hi=std::min(total,lo+chunk); fn(c,lo,hi);} });
+	// --sweep-div N (sanitizer re-runs): only every N-th chunk of a large enumeration is visited, the residue chosen by the seed
+	const u64 nchunks=(total+chunk-1)/chunk, div=cfg().sweep_div, pick=cfg().seed%(div?div:1);
+	const bool thin= div>1 && nchunks>=4*div;
+	parallel(label,[&](int,int,Ctx& c){ c.enum_mode=true; for(;;){ u64 lo=next.fetch_add(chunk); if(lo>=total) break; if(thin && (lo/chunk)%div!=pick) continue; u64 hi=std::min(total,lo+chunk); fn(c,lo,hi);} });
 }
 // number of cases for this tier, scaled
 static inline u64 N(u64 quick,u64 thorough){ double v=(cfg().tier=="thorough"?(double)thorough:(double)quick)*cfg().scale; if(v<1) v=1; return (u64)v; }
@@ -266,7 +269,7 @@ static inline void parse_args(int argc,char** argv){
 	for(int i=1;i<argc;i++){ std::string a=argv[i]; auto val=[&]()->std::string{ if(i+1<argc) return argv[++i]; fprintf(stderr,"missing value for %s\n",a.c_str()); exit(2); };
 		if(a=="--out") C.out=val(); else if(a=="--tier") C.tier=val(); else if(a=="--seed") C.seed=strtoull(val().c_str(),0,10); else if(a=="--scale") C.scale=atof(val().c_str());
 		else if(a=="--threads") C.threads=atoi(val().c_str()); else if(a=="--only") C.only=val(); else if(a=="--replay-op") C.replay_op=val(); else if(a=="--replay-hex") C.replay_hex=val();
-		else if(a=="--san-only") C.san_only=true; else if(a=="--sanlog") C.sanlog=val(); else if(a=="--list") C.list=true;
+		else if(a=="--san-only") C.san_only=true; else if(a=="--sweep-div") C.sweep_div=strtoull(val().c_str(),0,10); else if(a=="--sanlog") C.sanlog=val(); else if(a=="--list") C.list=true;
 		else if(a.rfind("--x-",0)==0){ C.extra[a.substr(4)]=val(); }
 		else { fprintf(stderr,"unknown arg %s\n",a.c_str()); exit(2);} }
 }
